@@ -188,6 +188,21 @@ class SimConn:
     def held(self) -> bool:
         return any(not f.done() for f in self._drain_waiters)
 
+    def scrub(self) -> None:
+        """Once the connection task is over, drop traceback references the
+        harness would otherwise keep alive (reader exception, task exception):
+        they pin the server's per-connection objects, which production frees
+        when the transport goes away."""
+        exc = self.reader._exception
+        if exc is not None:
+            exc.__traceback__ = None
+        task = self.task
+        if task is not None and task.done() and not task.cancelled():
+            exc = task.exception()
+            while exc is not None:
+                exc.__traceback__ = None
+                exc = exc.__context__ or exc.__cause__
+
     @property
     def done(self) -> bool:
         return self.task is not None and self.task.done()
